@@ -86,7 +86,7 @@ def gen_cases(tier, verif_seed):
 def build_app(seed):
     """-> (wsgi application, summary dict) or raises ConstructionRejected."""
     import random
-    from spyne import Application, Service, rpc, Fault
+    from spyne import Application, Service, rpc, Fault, Mandatory
     from spyne.model.complex import ComplexModel, Array
     from spyne.model.primitive import (Integer, Unicode, Boolean, Decimal,
                                        Date, DateTime, Double)
@@ -109,6 +109,12 @@ def build_app(seed):
             return Integer(ge=r.randint(0, 5), le=r.randint(6, 99))
         if k < .6:
             return Unicode(min_len=1, max_len=r.randint(2, 9))
+        if k < .68:
+            # `values` is documented as a set: its iteration order is not the
+            # document's business
+            vs = r.sample(['red', 'green', 'blue', 'cyan', 'magenta',
+                           'yellow', 'black'], r.randint(2, 5))
+            return Unicode(values=set(vs) if r.random() < .6 else vs)
         return r.choice(prims)
 
     types = []
@@ -131,6 +137,15 @@ def build_app(seed):
         cls = type('T%d' % i, (base,), {'__namespace__': r.choice(nss),
                                         '_type_info': fields})
         types.append(cls)
+
+    # classes that refer to each other (a late field pointing back)
+    if len(types) > 1 and r.random() < .2:
+        for k in range(r.randint(1, 2)):
+            a, b = r.sample(types, 2)
+            if r.random() < .5:
+                a.append_field('back%d' % k, b)
+            else:
+                a.append_field('backs%d' % k, Array(b))
 
     faults = []
     for i in range(r.randint(0, 3)):
@@ -179,6 +194,9 @@ def build_app(seed):
         if use_ports is True:
             ns['__port_types__'] = tuple(ports)
             summary['port_types'] += 2
+        if r.random() < .15:
+            # (inherited by sub-services, which then share the wsdl:service)
+            ns['__service_name__'] = 'Named%d' % si
         if headers and r.random() < .5:
             ns['__in_header__'] = r.choice(headers)
         if headers and r.random() < .4:
@@ -211,6 +229,9 @@ def build_app(seed):
                             t = t.customize(min_occurs=1)
                         elif k < .4:
                             t = t.customize(nillable=False)
+                        elif k < .5:
+                            # a renamed variant (MandatoryT)
+                            t = Mandatory(t)
                         args.append(t)
                     else:
                         args.append(prim())
@@ -246,6 +267,25 @@ def build_app(seed):
             summary['methods_list'].append(kw.get('_operation_name', name))
         services.append(type('Svc%d' % si, (sbase,), ns))
         summary['services'] += 1
+    if r.random() < .12:
+        # a class that is only ever reached through a renamed variant of it,
+        # with a subclass nobody mentions
+        zns = r.choice(nss)
+        Lone = type('Lone', (ComplexModel,), {'__namespace__': zns,
+                                              '_type_info': [('n', Unicode)]})
+        LoneSub = type('LoneSub', (Lone,), {'__namespace__': zns,
+                                            '_type_info': [('m', Integer)]})
+        d = {}
+        exec('def lone(ctx, a0):\n    return None\n', d)
+        lone_kw = {}
+        if getattr(services[-1], '__port_types__', None):
+            lone_kw['_port_type'] = services[-1].__port_types__[0]
+        services.append(type('SvcLone', (services[-1],), {
+            'lone': rpc(Mandatory(Lone), **lone_kw)(d['lone'])}))
+        summary['services'] += 1
+        summary['methods'] += 1
+        summary['methods_list'].append('lone')
+        del LoneSub
     app = Application(services, tns, name='C07App', in_protocol=Soap11(),
                       out_protocol=Soap11())
     return app, services, summary
@@ -400,6 +440,17 @@ def check_document(data, summary):
         if dup:
             V.append(('duplicate|%s' % kind, 'wsdl:%s name(s) %r defined more '
                       'than once' % (kind, dup)))
+    # ... ports per service, operations per portType and per binding
+    for kind, sub in (('service', 'port'), ('portType', 'operation'),
+                      ('binding', 'operation')):
+        for el in root.findall(q(WSDL, kind)):
+            names = [e.get('name') for e in el.findall(q(WSDL, sub))]
+            dup = sorted(set(n for n in names if names.count(n) > 1))
+            if dup:
+                V.append(('duplicate|%s/%s' % (kind, sub), 'wsdl:%s %r has '
+                          'wsdl:%s name(s) %r more than once' % (kind,
+                          el.get('name'), sub, dup)))
+                break
     for msg in root.findall(q(WSDL, 'message')):
         pn = [p_.get('name') for p_ in msg.findall(q(WSDL, 'part'))]
         if len(pn) != len(set(pn)):
